@@ -326,7 +326,13 @@ def corr_parse(ctx, cases):
                          describe=lambda i: cases[i][2]['text'])
 
 
-def corr_gen(ctx, cases, crash_is_violation=None):
+def corr_gen(ctx, cases, crash_is_violation=None, keys=None):
+    """`keys`: the fields of the GEN response this property's claim rests on (default: all)"""
+    keys = keys or ['ok', 'errs', 'req', 'code', 'maps', 'pb', 'li']
     reqs = ['GEN ' + files_req(m, f) for (m, f, _) in cases]
-    return compare_stage(ctx, 'GEN', reqs, canon_gen, canon_plain(['ok', 'errs', 'req', 'code', 'maps', 'pb', 'li']),
+
+    def ci(resp):
+        d = canon_gen(resp)
+        return {k: d[k] for k in keys}
+    return compare_stage(ctx, 'GEN', reqs, ci, canon_plain(keys),
                          describe=lambda i: cases[i][2]['text'], crash_is_violation=crash_is_violation)
